@@ -175,6 +175,11 @@ def operands(n):
         ('array-nx1', lambda: np.ones((n, 1))), ('array-1xn', lambda: np.ones((1, n))), ('array-nxn', lambda: np.ones((n, n))),
         ('array-0d', lambda: np.array(7.0)), ('none', lambda: None),
         ('array-n-int64', lambda: np.arange(n, dtype=np.int64)), ('array-n-bool', lambda: np.arange(n) % 2 == 0), ('array-n-str', lambda: np.array(['s'] * n)),
+        # pandas objects where an array is expected (positional, whatever their own index says)
+        ('pd-series-n', lambda: __import__('pandas').Series([0.25 * i for i in range(n)], index=list(range(n))[::-1])),
+        ('pd-series-n+1', lambda: __import__('pandas').Series([1.0] * (n + 1))), ('pd-series-str-n', lambda: __import__('pandas').Series(['s'] * n)),
+        ('pd-index-n', lambda: __import__('pandas').Index([1.5 * i for i in range(n)])), ('pd-column-n', lambda: __import__('pandas').DataFrame({'a': range(n), 'b': 2.0})['a']),
+        ('pd-categorical-n', lambda: __import__('pandas').Categorical([float(i % 2) for i in range(n)])),
         ('own-series', lambda: None), ('array-n-readonly', lambda: np.broadcast_to(np.float64(3.0), (n,))),
     ]
 
